@@ -198,17 +198,6 @@ end Upnp.C06
 
 namespace Upnp.C06
 
-/-- the observable form of an exception the model raises (`anc` = library ancestors by class name) -/
-def excInfo (anc : String → List String) (e : Exc) : ExcInfo := { cls := e.tok, mro := anc e.tok }
-
-/-- what is observed of a model run: the request as the requester receives it, the body as read
-    back by `readEnvelope` -/
-def modelObs (anc : String → List String) (res : List Request × Option Exc) : Obs :=
-  match res with
-  | ([r], _) => { sent := 1, err := none, method := r.method, url := r.url, headers := r.headers,
-                  tree := (readEnvelope r.body).map Envelope.tree }
-  | (_, e) => { sent := 0, err := e.map (excInfo anc) }
-
 /-- a character allowed inside an XML name (conservative: ASCII letters, digits, `_ - .`, and
     everything from U+00C0 on except the few non-name code points below U+0370) -/
 def isNameChar (c : Char) : Bool :=
